@@ -7,7 +7,7 @@ import re
 import subprocess
 import time
 
-ROOT = '/verif'
+ROOT = os.environ.get('VERIF_ROOT', '/verif')
 COQ = os.path.join(ROOT, 'coq')
 WORK = os.path.join(ROOT, '.work')
 LOGICAL = 'CV'
